@@ -21,3 +21,11 @@ claim("C05", "exploration",
 claim("C06", "exploration",
       "Trace monitor: every recorded attempt must carry one route and one group_by assignment shared by all its alerts, the expected group key, and the complete set of firing unsuppressed members; group keys must not alternate between aggregation groups; GET /alerts/groups and GET /alerts at probe instants must equal the reference partition.",
       _SYS_NOTE, "runtime monitoring: offline grouping checker over recorded notification traces + API probes; race detector pass", "DESIGN.md section 3 C06")
+claim("C02", "exploration",
+      "Differential runtime monitor on the real silence store + silencer in virtual time: after every step of generated histories (API-style edits, late/duplicated/batched merges of peer versions, GC, alert-GC cache eviction, snapshot restarts, clock advances across boundaries) Silencer.Mutes and the marker are compared with a brute-force evaluation of all stored silences; index invariants are walked under the store's lock; system scenarios check that no silenced alert is notified and that the API status equals the stored silences; a concurrent workload runs under the race detector.",
+      "Trusts the reference matcher model and the unfiltered Query as 'what the instance stores'; histories of <=60 steps, <=6 label sets; equal-timestamp ties are not generated.",
+      "runtime monitoring: differential oracle after every step + trace checkers over system executions + Go race detector", "DESIGN.md section 3 C02")
+claim("C03", "exploration",
+      "Differential runtime monitor on the real alert provider + inhibitor in virtual time: after every step of generated histories (fire, refresh, resolve, time-out, provider and cache GC, re-fire; several sources sharing equal-label values; two-sided rules) Inhibitor.Mutes is compared with the documented existential rule over the provider's currently firing alerts; bursts are replayed in several arrival orders; system scenarios check notifications and the API's inhibitedBy.",
+      "Trusts the reference rule (harness/model/inhibit.go) and the provider's own alert list as 'currently firing'; <=3 rules, <=8 label sets.",
+      "runtime monitoring: differential oracle after every step, permutation replay, trace checkers over system executions", "DESIGN.md section 3 C03")
